@@ -39,6 +39,7 @@ def atoms(tier):
     import predicate.standard_predicates as _SP
     ats += [getattr(_SP, n_) for n_ in ("neg_p", "zero_p", "pos_p", "eq_true_p", "eq_false_p", "is_none_p", "is_not_none_p", "is_falsy_p", "is_truthy_p", "is_int_p",
                                           "is_str_p", "is_bool_p", "is_list_p", "is_callable_p") if hasattr(_SP, n_)]     # the exported named constants themselves
+    ats += [m() for m in gen.big_atom_makers()[0]] + [m() for m in gen.big_atom_makers()[1]]      # large sets, huge ints, floats one ulp apart
     # constants outside the model's ordered sort (None, str, bool): judged by the search (the correspondence skips what it cannot encode)
     ats += [PP.EqPredicate(v=None), PP.NePredicate(v=None), in_p(None), not_in_p(None), in_p(None, 1), PP.EqPredicate(v="a"), PP.NePredicate(v="a"),
             in_p("a", "b"), not_in_p("a"), in_p(2, 1), not_in_p(3, 1), in_p(30, 20, 10), not_in_p(5, 4, 3, 2), PP.EqPredicate(v=True), PP.NePredicate(v=False), PP.GePredicate(v="m"), PP.LtPredicate(v="m"),
